@@ -24,9 +24,9 @@ ASSUMPTIONS = ["marginal support: S = product of S_i with [kmin_i, kmax_i-1] <= 
                "sampling mode decided by Pearson chi-square, p>=1e-4 held, one escalation with 4x samples, p<1e-6 violated",
                "exact comparisons at 1e-12"]
 HEADLINE = ["loaders", "manual", "empirical", "function", "marginal_direct", "marginal_sampling", "dispatcher_path", "dispatcher_equal_checks", "recreate_checks", "update_history_checks",
-            "box_points_evaluated", "chi2_tests", "chi2_escalations"]
+            "box_points_evaluated", "shared_marginal_callable", "chi2_tests", "chi2_escalations"]
 REQUIRED = {t: {"manual": 10, "empirical": 10, "function": 10, "marginal_direct": 10, "marginal_sampling": 5,
-                "dispatcher_equal_checks": 30} for t in ("quick", "thorough")}
+                "dispatcher_equal_checks": 30, "shared_marginal_callable": 8} for t in ("quick", "thorough")}
 TOL = 1e-12
 
 
@@ -177,9 +177,16 @@ def run_case(case):
         sampling = kind == "marginal_sampling"
         width = 4 if sampling else 7
         bounds = [(lo, lo + rng.randint(1, width)) for lo in (rng.randint(0, 3) for _ in range(T))]
+        shared = T >= 2 and rng.random() < 0.3
+        if shared:
+            # hostile but ordinary: the SAME callable object and the same bounds for several topologies (e.g. p = poisson(2.5); [p, p])
+            bounds = [bounds[0]] * T
+            res.count("shared_marginal_callable")
         calls = [[] for _ in range(T)]
         fps, descr = [], []
         for i, (lo, hi) in enumerate(bounds):
+            if shared and i > 0:
+                fps.append(fps[0]); descr.append(descr[0]); continue
             f, d = _marginal(rng, lo, hi, calls[i])
             fps.append(f); descr.append(d)
         params = {N.ARR_FP: fps, N.MOTIF_SIZES: sizes, N.LOW_HIGH_DEGREE_BOUND: bounds}
